@@ -497,6 +497,49 @@ func (w *gmWalk) update() {
 			keptReady[e] = true
 		}
 	}
+	// RPCs in flight while the update is applied (a third of the updates): they
+	// may fail while pools are swapped, but no RPC may panic
+	var rpcWG sync.WaitGroup
+	var stopRPC int32
+	rpcPanic := make(chan string, 4)
+	if w.rng.Intn(3) == 0 {
+		w.hit("C15.rpcs-during-update")
+		// widen whatever windows pickConn has between its critical sections: a
+		// short sleep at each of its instrumented yield sites (lock operations)
+		verifYieldFn = func(site string) {
+			if strings.HasPrefix(site, "pickConn/") {
+				time.Sleep(500 * time.Microsecond)
+			}
+		}
+		names := w.ctxNames()
+		for g := 0; g < 3; g++ {
+			rpcWG.Add(1)
+			go func(g int) {
+				defer rpcWG.Done()
+				for i := 0; atomic.LoadInt32(&stopRPC) == 0; i++ {
+					_, err := w.call(names[(g+i)%len(names)], i%4 == 0)
+					if err != nil && strings.HasPrefix(err.Error(), "PANIC") {
+						select {
+						case rpcPanic <- err.Error():
+						default:
+						}
+						return
+					}
+				}
+			}(g)
+		}
+		time.Sleep(time.Millisecond)
+	}
+	defer func() {
+		atomic.StoreInt32(&stopRPC, 1)
+		rpcWG.Wait()
+		verifYieldFn = nil
+		select {
+		case p := <-rpcPanic:
+			w.fail("C15.rpc-panic", "during-update", "an RPC issued while UpdateMultiEndpoints was running panicked: %s", p)
+		default:
+		}
+	}()
 	var err error
 	if concurrent {
 		// the same reconfiguration issued twice concurrently (two components
